@@ -682,11 +682,18 @@ void ServerConn::handleSaslStart(const QDomElement &el, bool v2)
         return;
     }
     const QString q = p.quirk("sasl");
-    if (q == QLatin1String("early_success")) {
-        // a server that cannot prove anything simply claims success
+    if (q.startsWith(QLatin1String("early_success"))) {
+        // a server that cannot prove anything simply claims success - bare, or dressed up with data that anybody
+        // can produce without the password (a well-formed server-first message, or something unparsable)
         const auto a = parseAttrs(initial.mid(3));
         user = mech.startsWith(QLatin1String("SCRAM")) ? QString::fromUtf8(a.value('n')) : QStringLiteral("someone");
-        saslSuccess({});
+        QByteArray data;
+        if (q == QLatin1String("early_success_server_first")) {
+            data = "r=" + a.value('r') + "XsrvNonceX,s=" + QByteArray("0123456789abcdef").toBase64() + ",i=" + QByteArray::number(p.scramIter > 0 ? p.scramIter : 4096);
+        } else if (q == QLatin1String("early_success_garbage")) {
+            data = "x=not-a-scram-message";
+        }
+        saslSuccess(data);
         return;
     }
     if (mech == QLatin1String("PLAIN")) {
@@ -895,6 +902,11 @@ void ServerConn::handleSaslResponse(const QDomElement &el, bool v2)
                 saslSuccess({});
                 return;
             }
+            if (sq == QLatin1String("success_server_first_again")) {
+                // instead of its signature the server repeats a (well-formed) server-first message
+                saslSuccess(sFirst);
+                return;
+            }
             if (saslIsV2 || p.scramFinalInSuccess) {
                 serverProofDelivered = honestV;
                 saslSuccess(v);
@@ -1041,6 +1053,11 @@ void ServerConn::handleSmNonza(const QDomElement &el)
                 delete s;
             }
             send(QByteArray("<failed xmlns='") + NS_SM + "'><item-not-found xmlns='" + NS_STANZAS + "'/></failed>");
+            // a stream that is already bound (bind2) is usable from here on whether or not the client enables
+            // stream management afterwards
+            if (bound) {
+                markReady();
+            }
         }
     } else if (tag == QLatin1String("r")) {
         if (sm && p.autoAck) {
